@@ -151,6 +151,11 @@ def make_handler_class(w, L):
                     f.set_result(obs)
                     return f
                 return obs
+            if mode == 'later':
+                # the answer is computed asynchronously: the observable emits when the driver says so ('respond' / 'respond_error')
+                subj = L['Subject']()
+                w.interaction(iid)['resp_subject'] = subj
+                return shaped(subj)
             if mode == 'error':
                 w.rec.log(self.ep, 'app_respond', iid=iid, pid=0, code=0x201)
                 return shaped(rx.throw(RuntimeError('app: response error')))
